@@ -80,6 +80,9 @@ impl<'tcx> Cx<'tcx> {
             let _ = write!(s, ",\"exp\":true,\"callsite\":{}", js(&self.span(cs)));
             let ed = sp.ctxt().outer_expn_data();
             let _ = write!(s, ",\"macro\":{}", js(&format!("{:?}", ed.kind)));
+            // the whole chain of expansions, innermost first (debug_assert! expands through assert!)
+            let chain: Vec<String> = sp.macro_backtrace().map(|e| js(&format!("{:?}", e.kind))).collect();
+            let _ = write!(s, ",\"macros\":[{}]", chain.join(","));
         }
         s.push('}');
         s
